@@ -22,7 +22,7 @@ var c13 = core.Register(&core.Prop{
 	Shards: func(tier string) int { return pickTier(tier, 8, 16) },
 	Floors: func(c map[string]int64, tier string) []string {
 		var out []string
-		for _, k := range []string{"roundtrips", "unterminated_checked", "esc:simple", "esc:x", "esc:u", "esc:quote", "esc:backslash", "quote:single", "quote:double", "invalid_utf8_texts", "large_texts", "string_sequences"} {
+		for _, k := range []string{"roundtrips", "unterminated_checked", "esc:simple", "esc:x", "esc:u", "esc:quote", "esc:backslash", "quote:single", "quote:double", "invalid_utf8_texts", "large_texts", "string_sequences", "codepoint_sweep"} {
 			if c[k] == 0 {
 				out = append(out, "coverage floor: no "+k)
 			}
@@ -232,6 +232,25 @@ func runC13(w *core.W) {
 				}
 			}
 		}
+	}
+	// every code point of the basic plane through its \\uHHHH escape (and \\xHH below 0x100), between two plain characters
+	for cp := rune(0); cp <= 0xFFFF; cp++ {
+		if cp >= 0xD800 && cp <= 0xDFFF {
+			continue
+		}
+		idx++
+		if !w.Mine(idx) {
+			continue
+		}
+		text := []byte("a" + string(cp) + "b")
+		form := []string{"\\u%04x", "\\u%04X"}[int(cp)%2]
+		c13Round(w, &StrCase{Text: text, Lit: []byte("'a" + fmt.Sprintf(form, cp) + "b'")})
+		counts["esc:u"]++
+		if cp < 0x100 {
+			c13Round(w, &StrCase{Text: text, Lit: []byte("\"a" + fmt.Sprintf("\\x%02X", cp) + "b\"")})
+			counts["esc:x"]++
+		}
+		w.Count("codepoint_sweep")
 	}
 	w.ExhaustivePart("every text made of one or two elements of a 37-element pool (quotes, backslash, controls, line breaks, multi-byte, invalid bytes) x 2 quote styles x 4 escape rates")
 	for i, n := 0, w.Pick(150000, 1800000); i < n; i++ {
